@@ -272,6 +272,12 @@ class P:
             if self.at("(") and e[0] == "path":
                 e = ("call", e[1], self.args())
                 continue
+            if self.at("["):
+                self.eat("[")
+                i = self.expr()
+                self.eat("]")
+                e = ("index", e, i)
+                continue
             return e
 
     def primary(self, nostruct):
@@ -634,6 +640,13 @@ class Lower:
                     proj = f"{proj}.1"
                 return proj, t[1][i]
             raise Untranslatable("tuple field of " + str(t))
+        if k == "index":
+            s, t = self.ex(e[1], env)
+            i, ti = self.ex(e[2], env, "N")
+            if isinstance(t, tuple) and t[0] == "list" and ti == "N":
+                # in-range by the code's own invariant; the model reads lists the same way
+                return f"({s}.getD {i} default)", t[1]
+            raise Untranslatable(f"indexing {t} by {ti}")
         if k == "tuple":
             parts = [self.ex(x, env) for x in e[1]]
             return "(" + ", ".join(p[0] for p in parts) + ")", ("tup", [p[1] for p in parts])
@@ -771,6 +784,8 @@ class Lower:
                 return f"({t}.normSq {s})", "S"
             if m == "normalize" and not args:
                 return f"({t}.normalize {s})", t
+        if isinstance(t, tuple) and t[0] == "list" and m == "len" and not args:
+            return f"{s}.length", "N"
         if isinstance(t, tuple) and t[0] == "st":
             rn = self.cfg.get('rust_names', {}).get(t[1], t[1])
             ext = self.cfg.get("extern", {}).get(f"{rn}::{m}")
@@ -1027,7 +1042,7 @@ import Engeom.Model.Prelude
 namespace GenRs
 section
 variable {{α : Type}} [Add α] [Sub α] [Mul α] [Div α] [Neg α] [LT α] [LE α]
-  [DecidableLT α] [DecidableLE α] [OfNat α 0] [OfNat α 1] [OfNat α 2] [Scalar α]
+  [DecidableLT α] [DecidableLE α] [OfNat α 0] [OfNat α 1] [OfNat α 2] [Scalar α]{extra_vars}
 
 """
 
@@ -1035,7 +1050,8 @@ variable {{α : Type}} [Add α] [Sub α] [Mul α] [Div α] [Neg α] [LT α] [LE 
 def translate_group(pid, group, report):
     """group: dict(imports=[...], cfg=..., fns=[dict(file, impl, name, lean, self_ty, ...)])"""
     cfg = group.get("cfg", {})
-    out = HEADER.format(imports="\n".join("import " + m for m in group.get("imports", [])))
+    out = HEADER.format(imports="\n".join("import " + m for m in group.get("imports", [])),
+                        extra_vars=(" " + group["header_extra"]) if group.get("header_extra") else "")
     known = dict(group.get("extern", {}))
     srcs = {}
     for f in group["fns"]:
